@@ -6,3 +6,12 @@ CASES = [
          old="   absPath.append( \"/.progargs/\").append( progNameOnly).append( \".pa\");",
          new="   static const string  sub_dir( \"/.progargs/\");\n   absPath.append( sub_dir).append( progNameOnly).append( \".pa\");"),
 ]
+
+CASES += [
+    dict(id='c09-subgroup-add-always-cross-checks', prop='C09', file='src/library/prog_args/handler.cpp', expect='R5',
+         old="   // another handler of the same argument group either\n   if (mUsedByGroup)\n      Groups::instance().crossCheckArguments( this);",
+         new="   // another handler of the same argument group either\n   Groups::instance().crossCheckArguments( this);"),
+    dict(id='c09-eq-cross-check-guard-else-form', prop='C09', file='src/library/prog_args/handler.cpp', expect=None,
+         old="   // another handler of the same argument group either\n   if (mUsedByGroup)\n      Groups::instance().crossCheckArguments( this);",
+         new="   // another handler of the same argument group either\n   if (!mUsedByGroup)\n   {\n   } else\n   {\n      Groups::instance().crossCheckArguments( this);\n   } // end if"),
+]
